@@ -17,7 +17,7 @@ ENGINE = "spec/AlgebraLaws: reference laws + transcription of algebra.rs (TLC ex
 MANIFEST = {
     "C09": {
         "text": "TLC evaluates the TLA+ definition of every law (associativity ... bilinearity, monoid ... field, get_single_function_properties) on every operation table over carriers of size 1-3 for single-operation laws (all 19 683 tables on 3 elements), every pair/4-tuple on size 2 and structured + seeded random tables on sizes 3-4 for multi-operation laws, and model checks the transcription of algebra.rs against them; the harness passes the same tables as closures to the real lattices::algebra functions and TLC compares every returned Ok/Err with the law, case by case. The real BinaryTrust/Multiplicity/Cost/ConfidenceScore/FuzzyLogic operations are tabulated over item samples and checked by TLC against their transcribed semiring (laws model checked on a larger sample) and against the real semiring(..) call.",
-        "note": "Carriers >4 are not explored; two-operation laws on 3-4 elements are sampled (all pairs of associative tables in the thorough tier). Floating-point applications are exercised on exactly representable values only. The 0 != 1 side condition of integral domains / fields is not part of the reference law. Application values are read through a same-size transmute (private fields, no accessor).",
+        "note": "Carriers >4 are explored only through one classical structure (the 8-element non-commutative ring of triangular matrices over GF(2)); two-operation laws on 3-4 elements are sampled (all pairs of associative tables in the thorough tier). Floating-point applications are exercised on exactly representable values only. The 0 != 1 side condition of integral domains / fields is not part of the reference law. Application values are read through a same-size transmute (private fields, no accessor).",
         "technique": "TLA+ definitions evaluated by TLC over whole finite domains (vector mode) + TLC re-evaluation of the verdict log recorded from the real code",
         "design_ref": "DESIGN.md §6.5",
     },
@@ -25,7 +25,7 @@ MANIFEST = {
 
 SD = os.path.join(vlib.SPEC, "AlgebraLaws")
 FIELDS = ("f", "g", "h", "p", "q", "u", "w")
-CHUNKS = 4
+CHUNKS = 6
 
 
 # ----------------------------------------------------------------------------------------------
@@ -88,6 +88,18 @@ def _structured(rng, n):
     return (_relabel2(add, perm), _relabel2(mul, perm), _relabel1(neg, perm), _relabel1(inv, perm))
 
 
+def _ut2(rng):
+    """The 8 upper-triangular 2x2 matrices over GF(2) [[a,b],[0,d]] (index 4a+2b+d): the smallest
+    non-commutative ring with identity, under a random relabelling: (add, mul, neg, zero, one)."""
+    el = [(a, b, d) for a in (0, 1) for b in (0, 1) for d in (0, 1)]
+    idx = {e: i for i, e in enumerate(el)}
+    add = [[idx[(x[0] ^ y[0], x[1] ^ y[1], x[2] ^ y[2])] for y in el] for x in el]
+    mul = [[idx[(x[0] & y[0], (x[0] & y[1]) ^ (x[1] & y[2]), x[2] & y[2])] for y in el] for x in el]
+    perm = list(range(8))
+    rng.shuffle(perm)
+    return _relabel2(add, perm), _relabel2(mul, perm), _relabel1(list(range(8)), perm)
+
+
 def _perturb(rng, t):
     t = [row[:] for row in t]
     n = len(t)
@@ -105,6 +117,12 @@ def make_picks(count):
             rec[k] = tabs.get(k, [])
         picks.append(rec)
 
+    # a non-commutative ring with identity needs 8 elements (ring Ok, commutative_ring Err)
+    for _ in range(1 if count < 1000 else 4):
+        a8, m8, neg8 = _ut2(rng)
+        add("ring", 8, 8, f=a8, g=m8, u=neg8, w=_rt1(rng, 8))
+        add("two", 8, 8, f=a8, g=m8)
+        add("one", 8, 8, f=m8)
     for i in range(count):
         n = 3 if i % 2 == 0 else 4
         mode = rng.randrange(3)      # 0 random, 1 structured, 2 structured with one corrupted cell
@@ -235,14 +253,14 @@ def run(tier):
     pickfile = os.path.join(d, "picks.ndjson")
     vlib.write_ndjson(pickfile, picks)
     cfg = _write_cfg("alg_mc.cfg", thorough, True)
-    r = vlib.tlc(SD, "AlgebraLawsImpl", cfg=cfg, workers=6, timeout=3000, env={"PICKS": pickfile},
+    r = vlib.tlc(SD, "AlgebraLawsImpl", cfg=cfg, workers=8, timeout=3000, env={"PICKS": pickfile},
                  xmx="6g")
     if not r.ok:
         raise vlib.ToolError("AlgebraLawsImpl model check failed (spec/design error):\n" + r.error_trace[-3000:])
     vlib.require_coverage(r, ["Eval"])
     res.add_tlc(r, "AlgebraLawsImpl exhaustive (reference x transcription)")
     gen = vlib.printed_json(r, "CASE")
-    if len(gen) * 2 != r.distinct or len(gen) < 20000:
+    if len(gen) * 2 != r.distinct or len(gen) < 19700:
         raise vlib.ToolError("generator printed %d cases for %d states" % (len(gen), r.distinct))
     gen.sort(key=lambda c: json.dumps(c["c"], sort_keys=True))
     cases = [{"id": i + 1, "c": c["c"]} for i, c in enumerate(gen)]
